@@ -622,10 +622,117 @@ let u_line args =
      | ErrOther -> "model=ErrOther valid=" ^ (if valid then "1" else "0"))
   | _ -> fail_line "U args"
 
+(* ---------- C15: abstraction of a loaded document into the nil-safety model ---------- *)
+let jget (j : json) (k : string) : json option =
+  match j with
+  | JObj ms -> (try Some (List.assoc (str_of_string k) ms) with Not_found -> None)
+  | _ -> None
+
+let jstr (j : json option) : string = match j with Some (JStr s) -> string_of_str s | _ -> ""
+
+let jmembers (j : json option) : (ascii list * json) list = match j with Some (JObj ms) -> ms | _ -> []
+let jelems (j : json option) : json list = match j with Some (JArr l) -> l | _ -> []
+
+let after_last_slash (s : string) =
+  match String.rindex_opt s '/' with Some i -> String.sub s (i + 1) (String.length s - i - 1) | None -> s
+
+let rec abs_sref (j : json option) : sref =
+  match j with
+  | None | Some JNull -> SNil
+  | Some (JObj _ as o) ->
+    (match jget o "$ref" with
+     | Some (JStr r) -> SRefTo (str_of_string (after_last_slash (string_of_str r)))
+     | _ ->
+       SVal (str_of_string (jstr (jget o "type")),
+             abs_sref (jget o "items"),
+             List.map (fun (k, v) -> (k, abs_sref (Some v))) (jmembers (jget o "properties")),
+             (match jget o "additionalProperties" with Some (JBool _) -> SNil | x -> abs_sref x),
+             List.map (fun v -> abs_sref (Some v)) (jelems (jget o "allOf")),
+             List.map (fun v -> abs_sref (Some v)) (jelems (jget o "oneOf"))))
+  | Some _ -> SEmpty
+
+let abs_content (j : json option) : (ascii list * media) list =
+  List.map (fun (k, v) -> (k, (match v with JNull -> MNil | _ -> MVal (abs_sref (jget v "schema"))))) (jmembers j)
+
+let abs_header (v : json) : header =
+  match v with
+  | JNull -> HNilValue
+  | _ -> (match jget v "$ref" with Some (JStr r) -> HRefTo (str_of_string (after_last_slash (string_of_str r)))
+                                 | _ -> HVal (abs_sref (jget v "schema")))
+
+let abs_param (v : json) : param =
+  match v with
+  | JNull -> PNilValue
+  | _ -> (match jget v "$ref" with Some (JStr r) -> PRefTo (str_of_string (after_last_slash (string_of_str r)))
+                                 | _ -> PVal (str_of_string (jstr (jget v "in")), abs_sref (jget v "schema")))
+
+let abs_response (v : json) : response =
+  match v with
+  | JNull -> RNilValue
+  | _ -> (match jget v "$ref" with Some (JStr r) -> RRefTo (str_of_string (after_last_slash (string_of_str r)))
+                                 | _ -> RVal (abs_content (jget v "content"), List.map (fun (k, h) -> (k, abs_header h)) (jmembers (jget v "headers"))))
+
+let abs_body (j : json option) : body =
+  match j with
+  | None -> BAbsent
+  | Some JNull -> BNilValue
+  | Some v -> (match jget v "$ref" with Some (JStr r) -> BRefTo (str_of_string (after_last_slash (string_of_str r)))
+                                      | _ -> BVal (abs_content (jget v "content")))
+
+let http_method_names = ["get"; "post"; "patch"; "put"; "delete"; "connect"; "head"; "options"; "trace"]
+
+let abs_pathitem (v : json) : pathitem =
+  match v with
+  | JNull -> PINil
+  | _ ->
+    let ops = List.filter_map (fun m ->
+        match jget v m with
+        | Some (JObj _ as o) ->
+          Some { op_params = List.map abs_param (jelems (jget o "parameters"));
+                 op_body = abs_body (jget o "requestBody");
+                 op_responses = List.map (fun (k, r) -> (k, abs_response r)) (jmembers (jget o "responses")) }
+        | _ -> None) http_method_names in
+    PIVal (List.map abs_param (jelems (jget v "parameters")), ops)
+
+let abs_dkind (j : json option) : dkind = match j with None | Some JNull -> DAbsent | Some (JStr _) -> DString | Some _ -> DOther
+
+let abs_server (v : json) : server =
+  match v with
+  | JNull -> SvNil
+  | _ -> SvVal (List.map (fun (k, sv) ->
+      (k, (match sv with JNull -> VNil
+                       | _ -> VVal (abs_dkind (jget sv "default"), List.map (fun e -> abs_dkind (Some e)) (jelems (jget sv "enum"))))))
+      (jmembers (jget v "variables")))
+
+let abs_doc (j : json) : doc =
+  let comps = (match jget j "components" with Some c -> c | None -> JNull) in
+  { d_servers = List.map abs_server (jelems (jget j "servers"));
+    d_schemas = List.map (fun (k, v) -> (k, abs_sref (Some v))) (jmembers (jget comps "schemas"));
+    d_headers = List.map (fun (k, v) -> (k, abs_header v)) (jmembers (jget comps "headers"));
+    d_bodies = List.map (fun (k, v) -> (k, abs_body (Some v))) (jmembers (jget comps "requestBodies"));
+    d_responses = List.map (fun (k, v) -> (k, abs_response v)) (jmembers (jget comps "responses"));
+    d_params = List.map (fun (k, v) -> (k, abs_param v)) (jmembers (jget comps "parameters"));
+    d_paths = List.map (fun (k, v) -> (k, abs_pathitem v)) (jmembers (jget j "paths")) }
+
+let rec coq_string_to_ocaml (s : Model.string) : string =
+  match s with EmptyString -> "" | String (c, r) -> String.make 1 (char_of_ascii c) ^ coq_string_to_ocaml r
+
+let c15 args =
+  match args with
+  | [_base; _kind; _path; h] ->
+    let d = abs_doc (parse_json_text (unhex h)) in
+    let inv = if loader_inv d then "1" else "0" in
+    (match gen_front d with
+     | Clean -> "model=clean must=any inv=" ^ inv
+     | MustErr -> "model=clean must=err inv=" ^ inv
+     | Panic site -> "model=PANIC site=" ^ hex (coq_string_to_ocaml site) ^ " inv=" ^ inv)
+  | _ -> fail_line "C15 args"
+
 let dispatch line =
   match List.filter (fun t -> t = "" || t.[0] <> '#') (String.split_on_char ' ' line) with
   | "C19" :: args -> c19 args
   | "C13" :: args -> c13 args
+  | "C15" :: args -> c15 args
   | "C12" :: _ -> "model=1 spec=1"   (* C12_deterministic: exactly one output per (spec, options) *)
   | "S" :: args -> s_line args
   | "D" :: _ -> "SKIP doc"
